@@ -5,13 +5,13 @@ use crate::core::{Acc, Ctx};
 use crate::encspace::{enumerate, EncCase};
 use serde_json::{json, Value};
 
-pub const RULE: &str = "every case of the C01 space (a) all mono sequences over Σ(bps) up to length L for bps 1..32, (b) all stereo PCM-frame sequences over Σ5×Σ5 × mid-side × correlation mode, (c) 3..8 channels over {MIN,0,MAX}, (d) 16-sample carrier + every tail over Σ × max-LPC, (e) every option vector with ≤d deviations × small inputs, (f) sample-rate codings, (g) writer × reader front-ends, (h) signal-family grid (incl. period-32/period-12 signals that drive the encoder to LPC orders up to 32, and 12/20-bit depths) on block sizes 16/192/576/4096 (thorough + 1152, 65535); a case is one (writer, options, signal parameters, PCM) tuple; distinct outcomes = distinct (set, result class, frame-shape) keys";
+pub const RULE: &str = "every case of the C01 space (a) all mono sequences over Σ(bps) up to length L for bps 1..32, (b) all stereo PCM-frame sequences over Σ5×Σ5 × mid-side × correlation mode, (c) 3..8 channels over {MIN,0,MAX}, (d) 16-sample carrier + every tail over Σ × max-LPC, (e) every option vector with ≤d deviations × small inputs, (f) sample-rate codings, (g) writer × reader front-ends, (h) signal-family grid (incl. period-32/period-12 signals that drive the encoder to LPC orders up to 32, and 12/20-bit depths) on block sizes 16/192/576/4096 (thorough + 17, 100, 1000, 1152, 65535), 1/2 channels everywhere and 3/8 channels on the small blocks; a case is one (writer, options, signal parameters, PCM) tuple; distinct outcomes = distinct (set, result class, frame-shape) keys";
 pub const ASSUMPTIONS: &[&str] = &["sample values outside Σ(bps) and the signal-family grid are not explored", "the crate's own decoder is the oracle here; C02 judges the same files with the independent decoder"];
 pub fn bounds(quick: bool) -> Value {
     if quick {
         json!({"mono_len": "6 for bps in {1,4,8,12,16,17,20,24,31,32}, 5 otherwise", "stereo_frames": 3, "multichannel_samples": 8, "tail_len": 3, "option_deviations": 2, "family_blocks": [16,192,576,4096]})
     } else {
-        json!({"mono_len": 8, "stereo_frames": 4, "multichannel_samples": 12, "tail_len": 5, "option_deviations": 3, "family_blocks": [16,192,576,1152,4096,65535]})
+        json!({"mono_len": 8, "stereo_frames": 4, "multichannel_samples": 12, "tail_len": 5, "option_deviations": 3, "family_blocks": [16,17,100,192,576,1000,1152,4096,65535]})
     }
 }
 
